@@ -23,7 +23,10 @@ META = {
              "unrepaired fact values; classify_sound ties the decision to the extracted facts."),
     "note": ("Trusted: Lean kernel (propext, Classical.choice, Quot.sound); extract/c13.go; harness/c13.go; checks/C13.py. The model "
              "mirrors vmihailenco/msgpack v5.4.1 (Skip, DecodeMapLen/ArrayLen/String, generic Unmarshal with only the time extension "
-             "registered) — validated by the correspondence run, not proved. NaN payload propagation follows amd64 SSE2. apply_wf "
+             "registered) — validated by the correspondence run, not proved. PLATFORM ASSUMPTION: the payload bits of a NaN produced by INC (x + NaN, Inf + -Inf, float32(NaN)) are not defined by the Go "
+             "spec; the model states the amd64 SSE2 rule (first NaN operand, quieted; default NaN fff8…), but the correspondence does not "
+             "assert it: every op line whose INC may meet NaN / ±Inf is an `apn` line, for which both sides print NaN leaves as the "
+             "canonical quiet NaN (compared as \"is NaN\"). apply_wf "
              "assumes no container is pushed past 2^32-1 children and paths shorter than 2^32 bytes. Error-class agreement between "
              "model and code is tested, not proved."),
     "design_ref": "§8 C13",
@@ -162,10 +165,21 @@ def ref_path(p):
 
 
 def _find(fs, key):
-    idx = [i for i, (k, _) in enumerate(fs) if k == key]
-    if len(idx) > 1:
-        raise Skip("duplicate key on the path")
-    return idx[0] if idx else None
+    """the field named `key`: with duplicate keys the FIRST one (the Spec's answer — `Spec.keyIndex`;
+    the docs are silent, the SDK never writes duplicates, and a patch must not depend on a later twin)"""
+    for i, (k, _) in enumerate(fs):
+        if k == key:
+            return i
+    return None
+
+
+def _canon_nan(t):
+    """NaN float leaves → canonical quiet NaN (for `apn` lines: payload bits are platform-defined)"""
+    if t[0] == "L":
+        return ("L", (b"\xca\x7f\xc0\x00\x00" if len(t[1]) == 5 else b"\xcb\x7f\xf8" + b"\x00" * 6)) if is_nan_leaf(t[1]) else t
+    if t[0] == "M":
+        return ("M", [(k, _canon_nan(v)) for k, v in t[1]])
+    return ("A", [_canon_nan(v) for v in t[1]])
 
 
 def _value(v):
@@ -258,8 +272,6 @@ def ref_op(t, kind, path, val):
         mv = _value(val)
         if mv[0] != "M":
             raise RefErr("type")
-        if len({k for k, _ in mv[1]}) != len(mv[1]):
-            raise Skip("duplicate keys in the MERGE value")
     root, hit = go(t, 0)
 
     def handler(node, hit):
@@ -551,6 +563,9 @@ def oracle_line(op, rep):
     """Spec oracle on ONE implementation reply.  Returns (finding id | None, text) or None."""
     if rep in ("panic", "input-mutated") or rep.startswith("err-with-output"):
         return (None, "`%s` → %s" % (op[:200], rep))
+    canon = op.startswith("apn ")
+    if canon:
+        op = "ap " + op[4:]
     if op.startswith("ap "):
         body, cond, ops = parse_ap(op)
         if rep.startswith("out "):
@@ -588,6 +603,8 @@ def oracle_line(op, rep):
                 return (None, "reported success, but the documented semantics reject the op list (%s)" % e)
             except Malformed:
                 return (None, "reported success on a body / with an output the reference decoder rejects")
+            if canon:
+                got, t = _canon_nan(got), _canon_nan(t)
             if got != t:
                 d = _first_diff(got, t)
                 if d and d[1][0] == "L" and d[2][0] == "L" and _num(d[1][1])[0] and _num(d[2][1])[0] \
@@ -761,14 +778,14 @@ def run(ctx):
     n_ref = 0
     for op, rep in zip(c.ops, c.impl):
         f = op.split(" ")
-        if f[0] == "ap":
+        if f[0] in ("ap", "apn"):
             kinds = [x.split(":")[0] for x in f[3:]] or ["none"]
             res = rep.split(" ")[0] + ("/" + rep.split(" ")[1] if rep.startswith("err") else "")
             k = "%s%s → %s" % (kinds[0], "+%d" % (len(kinds) - 1) if len(kinds) > 1 else "", res)
             hist[k] = hist.get(k, 0) + 1
             if rep.startswith("out "):
                 n_ref += 1
-    distinct = len(set(l for l in c.ops if l.startswith(("ap ", "pf ", "parse "))))
+    distinct = len(set(l for l in c.ops if l.startswith(("ap ", "apn ", "pf ", "parse "))))
     return K.finish(
         ctx, "proof",
         rule=("inputs = generated documents (depth ≤ 4, every leaf format code, fixmap/map16/map32 + fixarray/array16/array32 + "
